@@ -284,8 +284,8 @@ def worker(arg):
 
 def check(tier, seed):
     t = pc.trees("plain", "san")
-    n = 3000 if tier == "quick" else 40000
-    nsan = 500 if tier == "quick" else 6000
+    n = 3000 if tier == "quick" else 12000
+    nsan = 500 if tier == "quick" else 2000
     res = Result("exploration")
     res.rule = RULE
     base = seed * 1000000 + (0 if tier == "quick" else 100000) + 180000
